@@ -16,8 +16,25 @@ f64 = jnp.float64
 f32 = jnp.float32
 
 
-def S(*shape, dtype=f64):
-    return jax.ShapeDtypeStruct(tuple(shape), dtype)
+_DEFAULT = {'dtype': f64}
+
+
+def S(*shape, dtype=None):
+    return jax.ShapeDtypeStruct(tuple(shape), _DEFAULT['dtype'] if dtype is None else dtype)
+
+
+class default_dtype:
+    """Context manager: the float dtype used by S() and by the catalogue's structures/parameters."""
+
+    def __init__(self, dt):
+        self.dt = dt
+
+    def __enter__(self):
+        self.old = _DEFAULT['dtype']
+        _DEFAULT['dtype'] = self.dt
+
+    def __exit__(self, *a):
+        _DEFAULT['dtype'] = self.old
 
 
 def structs_equal(a, b):
